@@ -152,7 +152,7 @@ def rgsG (m : Nat) : BMat :=
   BMat.ofAdj (2 * m) (fun i j => i < 2 * m ∧ j < 2 * m ∧ i ≠ j ∧ ((i % 2 = 1 ∧ j % 2 = 1) ∨ i + 1 = j ∧ i % 2 = 0 ∨ j + 1 = i ∧ j % 2 = 0))
 
 /-- distinctness of the scripted explorers on the families their docstrings speak about (a combinatorial claim about the
-    scripted sequences) — not proved; evaluated by the direct oracle on every run (n ≤ 14 resp. m ≤ 6).  On relabelled
+    scripted sequences) — not proved; evaluated by the direct oracle on every run (n ≤ 12 resp. m ≤ 6).  On relabelled
     copies the scripted sequences do produce repetitions (observed, recorded in the evidence; not demanded). -/
 def scripted_explorers_distinct_statement : Prop :=
   (∀ (m : Nat) (out : List BMat), 2 ≤ m → rgsOrbitFinder (rgsG m) = .ok out → out.Pairwise (fun a b => a.beq b = false)) ∧
